@@ -10,7 +10,8 @@ from .decks import WORLD_SURF
 FAMILIES = ['depth1', 'depth2', 'depth3', 'depth4', 'reuse-diff-tr',
             'reuse-same-tr', 'fill-num', 'fill-inline3', 'fill-inline12',
             'fill-star', 'trcl-only', 'both', 'filler-trcl', 'filler-compl',
-            'clip', 'both-identity-fill', 'shared-surface-number', 'mixed']
+            'clip', 'both-identity-fill', 'shared-surface-number',
+            'reuse-int-translations', 'reuse-mirror', 'universe-imp0', 'mixed']
 
 SLOTS = [(-5.0, -5.0, 0.0), (0.0, -5.0, 0.5), (5.0, -5.0, -0.5),
          (-5.0, 0.0, 0.5), (0.0, 0.0, 0.0), (5.0, 0.0, 0.3),
@@ -285,6 +286,71 @@ def build(rng, family):
                                      imp={'n': '1'}, fill=fill))
             deck.hints.append(np.array(slots[k], dtype=float))
             containers.append(cid)
+    elif family == 'reuse-int-translations':
+        # one universe placed by many small-integer translations that differ
+        # in one coordinate only (cache keys that are "almost equal")
+        uni = bld.universe(0, size=0.5)
+        axis = rng.randrange(3)
+        fixed = [rng.randint(-2, 2) for _ in range(3)]
+        vals = rng.sample([-4, -3, -2, -1, 0, 1, 2, 3, 4], rng.randint(3, 6))
+        for val in vals:
+            cid = len(containers) + 1
+            pos = list(fixed)
+            pos[axis] = val
+            form = rng.choice(['inline3', 'inline12', 'num'])
+            mot = Motion([float(v) for v in pos])
+            fill = bld.fill_of(uni, form, motion=mot)
+            deck.surfs.append(M.Surf(cid, 's', [float(v) for v in pos] + [0.45]))
+            mat, rho = bld.material()
+            deck.cells.append(M.Cell(cid, mat=mat, rho=rho, geom=M.S(-cid),
+                                     imp={'n': '1'}, fill=fill))
+            deck.hints.append(np.array(pos, dtype=float))
+            containers.append(cid)
+    elif family == 'reuse-mirror':
+        # the same universe through a transformation and through its mirror
+        # image (same displacement, same first two matrix rows, third row
+        # negated), in the two halves of one region
+        # an oblique plane through an off-centre sphere: not mirror-symmetric
+        uni = bld.universe(0, style='plane-sphere')
+        base = motion_of_class(rng, rng.choice(['generic', 'identity',
+                                                'quarter']))
+        org = np.array(slots[0], dtype=float)
+        bmat2 = base.b.copy()
+        bmat2[2] = -bmat2[2]
+        cut = 80
+        deck.surfs.append(M.Surf(cut, 'pz', [slots[0][2] + 0.1]))
+        for k, (bmat, sign) in enumerate(((base.b, -1), (bmat2, 1))):
+            cid = k + 1
+            deck.surfs.append(M.Surf(cid, 's', list(slots[0]) + [2.0 + 0.1 * k]))
+            mot = Motion(org, bmat)
+            form = rng.choice(['inline12', 'num'])
+            if form == 'num':
+                tid = bld.next_tr
+                bld.next_tr += 1
+                deck.trs.append(M.TrCard(tid, [float(v) for v in org],
+                                         [float(v) for v in bmat.reshape(9)],
+                                         motion=mot))
+                fill = M.Fill(universe=uni, tr=M.TrSpec(number=tid))
+            else:
+                fill = M.Fill(universe=uni, tr=M.TrSpec(
+                    origin=[float(v) for v in org],
+                    entries=[float(v) for v in bmat.reshape(9)], motion=mot))
+            mat, rho = bld.material()
+            deck.cells.append(M.Cell(cid, mat=mat, rho=rho,
+                                     geom=M.AND(M.S(-cid), M.S(sign * cut)),
+                                     imp={'n': '1'}, fill=fill))
+            containers.append(cid)
+        deck.hints.append(org)
+        deck.tags.add('tr.mirror')
+    elif family == 'universe-imp0':
+        # cells of the filling universe with zero importance: only the
+        # importance of the level-0 cell decides what is converted
+        for k in range(rng.randint(1, 2)):
+            uni = bld.universe(rng.randint(0, 1))
+            ucells = [c for c in deck.cells if c.u == uni]
+            for cel in rng.sample(ucells, rng.randint(1, len(ucells))):
+                cel.imp = {'n': '0'}
+            add(rng.choice(['num', 'inline12', 'inline3']), uni, slots[k])
     elif family == 'filler-trcl':
         uni = bld.universe(0, style='plane-sphere')
         # give one filler cell its own TRCL (a pure translation keeps the
